@@ -352,6 +352,115 @@ impl<'a> Builder<'a> {
 }
 }
 
+pub mod lock {
+use super::*;
+//@item file=netconf/src/message/rpc/operation/lock.rs kind=struct name=Builder sub=/ctx:=>pub ctx:;target:=>pub target:/
+pub open spec fn inv(b: Builder) -> bool { b.target.value matches Some(ds) ==> permitted_lock_target(ds, b.ctx.server_capabilities.set@) }
+impl<'a> Builder<'a> {
+//@extract id=lock_builder_target file=netconf/src/message/rpc/operation/lock.rs impl=/^impl<'a> Builder<'a>/ fn=target rules=R1,R7,R16,R17 r7map=result vis=pub
+//@contract
+        requires inv(self),
+        ensures res is Ok <==> permitted_lock_target(target, self.ctx.server_capabilities.set@),     // OBL:C09.lock.target_iff_permitted
+                res matches Ok(b) ==> inv(b) && b.target.value == Some(target) && b.ctx == self.ctx, // OBL:C09.lock.builder_holds_only_permitted
+//@end
+}
+}
+
+pub mod copy_config {
+use super::*;
+pub struct Url { pub id: u64 }
+pub struct StringV { pub id: u64 }
+pub enum Target { Datastore(Datastore), Url(Url) }
+pub enum Source { Datastore(Datastore), Config(StringV), Url(Url) }
+//@item file=netconf/src/message/rpc/operation/copy_config.rs kind=struct name=Builder sub=/ctx:=>pub ctx:;target:=>pub target:;source:=>pub source:/
+pub open spec fn inv(b: Builder) -> bool {
+    &&& b.target.value matches Some(Target::Datastore(ds)) ==> permitted_target(ds, b.ctx.server_capabilities.set@)
+    &&& b.source.value matches Some(Source::Datastore(ds)) ==> permitted_source(ds, b.ctx.server_capabilities.set@)
+}
+impl<'a> Builder<'a> {
+//@extract id=copy_config_builder_target file=netconf/src/message/rpc/operation/copy_config.rs impl=/^impl Builder<'_>/ fn=target rules=R1,R7,R16,R17 r7map=result vis=pub
+//@contract
+        requires inv(self),
+        ensures res is Ok <==> permitted_target(target, self.ctx.server_capabilities.set@),          // OBL:C09.copy_config.target_iff_permitted
+                res matches Ok(b) ==> inv(b) && b.ctx == self.ctx,                                   // OBL:C09.copy_config.builder_holds_only_permitted
+//@end
+//@extract id=copy_config_builder_source file=netconf/src/message/rpc/operation/copy_config.rs impl=/^impl Builder<'_>/ fn=source rules=R1,R7,R16,R17 r7map=result vis=pub
+//@contract
+        requires inv(self),
+        ensures res is Ok <==> permitted_source(source, self.ctx.server_capabilities.set@),          // OBL:C09.copy_config.source_iff_permitted
+                res matches Ok(b) ==> inv(b) && b.ctx == self.ctx,                                   // OBL:C09.copy_config.builder_holds_only_permitted
+//@end
+}
+}
+
+pub mod validate {
+use super::*;
+pub struct StringV { pub id: u64 }
+pub struct Url { pub id: u64 }
+pub enum Source { Datastore(Datastore), Config(StringV), Url(Url) }
+//@item file=netconf/src/message/rpc/operation/validate.rs kind=struct name=Builder sub=/ctx:=>pub ctx:;source:=>pub source:/
+pub open spec fn inv(b: Builder) -> bool { b.source.value matches Some(Source::Datastore(ds)) ==> permitted_source(ds, b.ctx.server_capabilities.set@) }
+impl<'a> Builder<'a> {
+//@extract id=validate_builder_source file=netconf/src/message/rpc/operation/validate.rs impl=/^impl Builder<'_>/ fn=source rules=R1,R7,R16,R17 r7map=result vis=pub
+//@contract
+        requires inv(self),
+        ensures res is Ok <==> permitted_source(source, self.ctx.server_capabilities.set@),          // OBL:C09.validate.source_iff_permitted
+                res matches Ok(b) ==> inv(b) && b.ctx == self.ctx,                                   // OBL:C09.validate.builder_holds_only_permitted
+//@end
+}
+}
+
+pub mod cancel_commit {
+use super::*;
+pub struct Token { pub id: u64 }
+pub const CANCEL_COMMIT_NAME: &'static str = "cancel-commit";
+//@item file=netconf/src/message/rpc/operation/cancel_commit.rs kind=struct name=Builder sub=/ctx:=>pub ctx:;persist_id:=>pub persist_id:/
+impl<'a> Builder<'a> {
+//@extract id=cancel_commit_builder_persist_id file=netconf/src/message/rpc/operation/cancel_commit.rs impl=/^impl Builder<'_>/ fn=persist_id rules=R1,R16,R17 vis=pub
+//@+ sub=/CancelCommit::NAME=>CANCEL_COMMIT_NAME/
+//@contract
+        ensures res is Ok <==> permitted_persist(self.ctx.server_capabilities.set@),                 // OBL:C09.cancel_commit.persist_id_needs_confirmed_commit_1_1
+                res matches Ok(b) ==> b.persist_id == token && b.ctx == self.ctx,
+//@end
+}
+}
+
+pub mod edit_config {
+use super::*;
+pub struct Url { pub id: u64 }
+pub enum Source<D> { Config(D), Url(Url) }
+pub enum DefaultOperation { Merge, Replace, None }
+pub struct PhantomD<D> { pub _d: core::marker::PhantomData<D> }
+//@item file=netconf/src/message/rpc/operation/edit_config.rs kind=struct name=Builder sub=/ctx:=>pub ctx:;target:=>pub target:;source:=>pub source:;default_operation:=>pub default_operation:;error_option:=>pub error_option:;test_option:=>pub test_option:/
+pub open spec fn inv<D>(b: Builder<D>) -> bool {
+    &&& b.target.value matches Some(ds) ==> permitted_target(ds, b.ctx.server_capabilities.set@)
+    &&& (b.error_option is RollbackOnError) ==> permitted_error_option(b.error_option, b.ctx.server_capabilities.set@)
+    &&& !(b.test_option is TestThenSet) ==> permitted_test_option(b.test_option, b.ctx.server_capabilities.set@)
+}
+impl<'a, D> Builder<'a, D> {
+//@extract id=edit_config_builder_target file=netconf/src/message/rpc/operation/edit_config.rs impl=/^impl<D> Builder<'_, D>/ fn=target rules=R1,R7,R16,R17 r7map=result vis=pub
+//@contract
+        requires inv(self),
+        ensures res is Ok <==> permitted_target(target, self.ctx.server_capabilities.set@),          // OBL:C09.edit_config.target_iff_permitted
+                res matches Ok(b) ==> inv(b) && b.ctx == self.ctx,                                   // OBL:C09.edit_config.builder_holds_only_permitted
+//@end
+//@extract id=edit_config_builder_error_option file=netconf/src/message/rpc/operation/edit_config.rs impl=/^impl<D> Builder<'_, D>/ fn=error_option rules=R1,R7,R16,R17 r7map=result vis=pub
+//@+ sub=/try_use::<D>(=>try_use(/
+//@contract
+        requires inv(self),
+        ensures res is Ok <==> permitted_error_option(error_option, self.ctx.server_capabilities.set@),   // OBL:C09.edit_config.error_option_iff_permitted
+                res matches Ok(b) ==> inv(b) && b.ctx == self.ctx,                                   // OBL:C09.edit_config.builder_holds_only_permitted
+//@end
+//@extract id=edit_config_builder_test_option file=netconf/src/message/rpc/operation/edit_config.rs impl=/^impl<D> Builder<'_, D>/ fn=test_option rules=R1,R7,R16,R17 r7map=result vis=pub
+//@+ sub=/try_use::<D>(=>try_use(/
+//@contract
+        requires inv(self),
+        ensures res is Ok <==> permitted_test_option(test_option, self.ctx.server_capabilities.set@),     // OBL:C09.edit_config.test_option_iff_permitted
+                res matches Ok(b) ==> inv(b) && b.ctx == self.ctx,                                   // OBL:C09.edit_config.builder_holds_only_permitted
+//@end
+}
+}
+
 } // mod operation
 
 } // verus!
